@@ -10,7 +10,12 @@
    sum has to be reduced before it is serialised: Polynomial.ValueAt and Shares.reconstruct do, the proof responses are sums
    of two terms (< 2r < 2^256), and combineShares - the sum of n shares - did not (KeyGen panicked in SK.Bytes from n = 6 on,
    always for n >= 12; repaired, see KNOWN_FINDINGS.txt).  The tie compares scalars modulo r and exercises (n,t) up to
-   (12,7) in the quick tier and (16,2), (10,10) in the thorough tier. *)
+   (12,7) in the quick tier and (16,2), (10,10) in the thorough tier.
+
+   Object state.  The model has none: keys, parameters and party lists are ARGUMENTS of the model functions, whereas the Go
+   Prover, Verifier and TPS are long-lived objects that are (re-)initialised by Init / SetShareData.  "A re-initialised object
+   behaves like a newly constructed one" is a modelling decision, tied on every run by the long-lived-objects family of the
+   check (the same objects through several key epochs, each verdict compared with fresh objects on the same input). *)
 From mathcomp Require Import all_ssreflect all_algebra.
 From TSS Require Import Alg.Lagrange Alg.PS Corr.PSCorr.
 Import GRing.Theory.
